@@ -38,3 +38,31 @@ static inline int pre_verif_d_compute_indices3(unsigned long offset, sv_t shape,
 static inline int post_verif_d_compute_indices3(unsigned long offset, sv_t shape, sv_t strides, sv_t ret) { return post_verif_compute_indices3(offset, shape, strides, ret); }
 static inline int pre_verif_d_product(sv_t shape) { return pre_verif_product(shape); }
 static inline int post_verif_d_product(sv_t shape, unsigned long ret) { return post_verif_product(shape, ret); }
+
+/* normalize_axis, unsigned axis list of fixed length 2: valid iff every axis < ndim (an unsigned axis cannot be negative); entries kept.
+ * Literally the rule of the signed kinds (C03 normalize_axes: -ndim <= axis < ndim) restricted to non-negative values. */
+static inline int pre_verif_u_normalize_axes2(a2u_t axes, unsigned long ndim) { return ndim <= 0x7fffffffUL; }
+static inline int post_verif_u_normalize_axes2(a2u_t axes, unsigned long ndim, opt_a2u_t ret)
+{
+  int ok = ARR_AT(axes, 0) < ndim && ARR_AT(axes, 1) < ndim;
+  return (OPT_HAS(ret) != 0) == (ok != 0)
+      && IMPLIES(ok, (unsigned long)ARR_AT(OPT_VAL(ret), 0) == ARR_AT(axes, 0) && (unsigned long)ARR_AT(OPT_VAL(ret), 1) == ARR_AT(axes, 1));
+}
+
+/* shape_reshape(src, constant dst): NumPy rules -- every extent positive or a single -1 (inferred), element counts equal.
+ * Sources: at most 4 axes with extents 1..6 (the element count is formed bit-precisely). */
+static inline int c09_rs_small(sv_t s)
+{ int ok = SV_LEN(s) <= 4UL; for (unsigned long t = 0; t < 4; t++) ok = ok && IMPLIES(t < SV_LEN(s), SV_AT(s, t) >= 1UL && SV_AT(s, t) <= 6UL); return ok; }
+static inline unsigned long c09_rs_numel(sv_t s)
+{ unsigned long p = 1; for (unsigned long t = 0; t < 4; t++) if (t < SV_LEN(s)) p = p * SV_AT(s, t); return p; }
+static inline int pre_verif_ct_reshape_m2_m3(sv_t src) { return c09_rs_small(src); }
+static inline int post_verif_ct_reshape_m2_m3(sv_t src, rs_obs_t ret) { return !ret.ok; }          /* negative extents other than -1: never valid */
+static inline int pre_verif_ct_reshape_2_m1(sv_t src) { return c09_rs_small(src); }
+static inline int post_verif_ct_reshape_2_m1(sv_t src, rs_obs_t ret)
+{
+  unsigned long n = c09_rs_numel(src);
+  return (ret.ok != 0) == (n % 2UL == 0UL) && IMPLIES(ret.ok, SV_LEN(ret.shape) == 2UL && SV_AT(ret.shape, 0) == 2UL && SV_AT(ret.shape, 1) == n / 2UL);
+}
+static inline int pre_verif_ct_reshape_3_2(sv_t src) { return c09_rs_small(src); }
+static inline int post_verif_ct_reshape_3_2(sv_t src, rs_obs_t ret)
+{ return (ret.ok != 0) == (c09_rs_numel(src) == 6UL) && IMPLIES(ret.ok, SV_LEN(ret.shape) == 2UL && SV_AT(ret.shape, 0) == 3UL && SV_AT(ret.shape, 1) == 2UL); }
